@@ -701,7 +701,7 @@ def main():
     # hypothesis "slot cover" of lemma B, proved per iteration on the mechanically extracted final loops of the P1 and RWG / SNC dof-map functions (all sizes)
     from vlib import vrun as VR
 
-    for blk in ("_p1_final_block", "_rwg_final_block"):
+    for blk in ("_p1_numbering", "_p1_final_block", "_rwg_final_block"):
         VR.add_block(run, "contracts.dofmap_blocks", blk)
     # the greedy step specification of lemma A, proved on the mechanically extracted body of the loop of FunctionSpace._compute_color_map (sets, the generator
     # passed to next(), fancy indexing modelled as set / image-set terms), for 1 and 3 local slots: the new colour is in range and differs from the colour of
